@@ -798,6 +798,11 @@ class Interp:
                 svals = frozenset([src[1]])
             self.kill_place(st, p)
             t = self.canon(st, p)
+            kk = o.get("k") or {}
+            if sp is None and kk.get("v") is not None and str(kk.get("ty", "")).startswith("&") and not p.get("p"):
+                # reference to a promoted newtype constant (`&Family::IPV4`): the wrapped integer is known
+                st.z.set_range(t + ".*.f0", kk["v"], kk["v"])
+                return
             if slin:
                 st.lin[t] = slin
             if svals:
